@@ -3,6 +3,7 @@ package props
 import (
 	"fmt"
 	"math/rand"
+	"sort"
 	"strings"
 
 	"verif/core"
@@ -141,7 +142,7 @@ var awkwardSources = []string{
 	"foo\nbar\n", "ls\ncat\n", `a\$b` + "\n", `\"quoted\"` + "\n" + "x\n", `"@rx foo` + "\n", `a "@rx b` + "\n" + "c\n", "a b\n", `a\\b` + "\n", `\x5cd` + "\n",
 	`" \d` + "\n", `[\"']x` + "\n", `^\s*x$` + "\n", "##!+ i\nselect\nunion\n", "##!^ \\b\nfoo\nfob\n", `a" \` + "\n" + `b\n`, "x\\ \n", "uid:932100x\n", "SecRule\nSecAction\n",
 	"##!> define sep [;|&]\n##!> define start (?:^|{{sep}})\n##!^ {{start}}\nfoo\nbar\n", "##!> define c [0-9]\n##!> define b x{{c}}\n##!> define a {{b}}y\n##!$ {{a}}\nfoo\n",
-	"[ ]select\n", "[ ]+x\n[ ]y\n", "", "##! only a comment\n", "##!> define unused x\n\n", "(?:lisa|maggie\n", "fine\n##!> assemble\n  open\n", "ok\n##!> frobnicate\n", `"!@rx x` + "\n", "##!> assemble\na\nb\n##!=>\nc\n##!<\n", `\.(?:ht|js)` + "\n", "é\n", `end" \\` + "\n",
+	"[ ]select\n", "[ ]+x\n[ ]y\n", "", "##! only a comment\n", "##!> define unused x\n\n", "%2e%2e/\n", "%[0-9a-f]{2}\n100%\n", "%s and %d\n%v\n", "(?:lisa|maggie\n", "fine\n##!> assemble\n  open\n", "ok\n##!> frobnicate\n", `"!@rx x` + "\n", "##!> assemble\na\nb\n##!=>\nc\n##!<\n", `\.(?:ht|js)` + "\n", "é\n", `end" \\` + "\n",
 }
 
 func rulesGen(r *rand.Rand, lane string) *rulesCase {
@@ -319,7 +320,42 @@ func c11All(env *core.Env, c0 *rulesCase) core.Verdict {
 	if err := c.tree().Write(root); err != nil {
 		return core.Incon("cannot write tree: %v", err)
 	}
-	v := core.Verdict{Status: core.Held, Features: []string{"lane:all"}, Counts: map[string]int{}}
+	v := core.Verdict{Status: core.Held, Features: []string{"lane:" + c.Lane}, Counts: map[string]int{}}
+	if c.Lane == "all-stash" {
+		// the file walked last appends a stored name that only the file walked first stores: on its own it is
+		// refused, so --all must fail as well and leave that rule's operand alone
+		files := []string{}
+		for key := range c.Sources {
+			files = append(files, key+".ra")
+		}
+		sort.Strings(files)
+		if len(files) < 2 {
+			return core.Verdict{Status: core.Skipped, Msg: "fewer than two assembly files"}
+		}
+		first, last := strings.TrimSuffix(files[0], ".ra"), strings.TrimSuffix(files[len(files)-1], ".ra")
+		t := sut.Tree{"regex-assembly/" + first + ".ra": "##!> assemble\n  leaka\n  leakb\n  ##!=< leakstore\n##!<\nkeep\n##!=> leakstore\n", "regex-assembly/" + last + ".ra": "needs\n##!=> leakstore\n"}
+		if err := t.Write(root); err != nil {
+			return core.Incon("cannot write: %v", err)
+		}
+		if g := cli(env, root, nil, "regex", "generate", last); g.Exit == 0 {
+			return core.Incon("the dependent file compiles on its own")
+		}
+		orig, pos := c.render(nil)
+		u := cli(env, root, nil, "regex", "update", "--all")
+		if u.Class() == sut.ClassTimeout {
+			return core.Incon("watchdog hit, not judged: %s", describe(u))
+		}
+		got, _ := sut.Read(root, rulesPath)
+		gl, ol := strings.Split(got, "\n"), strings.Split(orig, "\n")
+		if len(gl) != len(ol) || gl[pos[last]] != ol[pos[last]] {
+			return core.Viol("state-travels-between-files", "update --all rewrote the operand of %s, whose assembly file appends a name that only %s.ra stores (generate %s fails)\n%s", last, first, last, firstDiff(got, orig))
+		}
+		if u.Exit == 0 {
+			return core.Viol("state-travels-between-files", "update --all exits 0 although %s.ra cannot be assembled on its own: %s", last, describe(u))
+		}
+		v.Nontrivial = true
+		return v
+	}
 	before := sut.Snap(root)
 	over := map[string]string{}
 	for _, key := range sortedKeys(c.Sources) {
@@ -360,7 +396,7 @@ func c11Check(env *core.Env, cc core.Case) core.Verdict {
 	if c.IO != nil {
 		return ioScenarioCheck(env, "C11", c.IO)
 	}
-	if c.Lane == "all" {
+	if c.Lane == "all" || c.Lane == "all-stash" {
 		return c11All(env, c)
 	}
 	root := emptyRoot(env)
@@ -707,7 +743,7 @@ func init() {
 	register(&core.Property{
 		ID:    "C11",
 		Level: "exploration",
-		Rule: "generated rules files in CRS layout (1..6 rules, chains of length 0..3, ids sharing the 3-digit prefix and longer ids with the same leading digits, !@rx and non-rx operators, comments that quote ids and SecRule lines (hostile lane: also inside chains and in actions), LF/CRLF, with/without final newline, blanks after `\" \\`) with assembly files whose generated regexes contain $, escaped quotes, `\"@rx `-like text, spaces and backslashes; one update per case on a valid or invalid target, plus update --all on trees whose assembly files (rules and chained rules, so that NNNNNN-chainK.ra is walked right before NNNNNN.ra) are all valid (offset beyond the chain, non-rx operator, missing assembly file). " +
+		Rule: "generated rules files in CRS layout (1..6 rules, chains of length 0..3, ids sharing the 3-digit prefix and longer ids with the same leading digits, !@rx and non-rx operators, comments that quote ids and SecRule lines (hostile lane: also inside chains and in actions), LF/CRLF, with/without final newline, blanks after `\" \\`) with assembly files whose generated regexes contain $, escaped quotes, `\"@rx `-like text, spaces and backslashes; one update per case on a valid or invalid target, plus update --all on trees whose assembly files (rules and chained rules, so that NNNNNN-chainK.ra is walked right before NNNNNN.ra) are all valid (offset beyond the chain, non-rx operator, missing assembly file); in one of eight such trees the file walked last appends a stored name that only the file walked first stores (update --all must fail and leave that operand alone). " +
 			"Oracle: the harness renders the file itself, so the expected result is the original with exactly the addressed operand replaced by `regex generate`'s stdout, byte for byte; every other file of the snapshot unchanged; invalid targets must fail and change nothing. Non-trivial = update changed the file. Plus I/O-fault scenarios (iofault.go): every read - or every read but the first - of one file longer than two buffers fails with EIO (strace injection): the command must fail without printing or writing a partial result, or what it produced must be the complete result.",
 		Cases: func(env *core.Env, rng *rand.Rand) []core.Case {
 			cs := rulesCases(env, rng, 900, 8000)
@@ -725,6 +761,9 @@ func init() {
 					}
 				}
 				c.Sources = keep
+				if i%8 == 7 {
+					c.Lane = "all-stash"
+				}
 				cs = append(cs, c)
 			}
 			for _, sc := range ioCases("C11") {
